@@ -37,7 +37,7 @@ Definition read_special (c : N) (s : str) : option (N * str) :=
 Definition norm_attrs (enc : bool) (f : fmt) (p : tagp) : list (str * str) :=
   map (fun kv => (fst kv, match value_text enc (snd kv) with Some v => v | None => [] end)) (attributes f p).
 
-(* adjacent text runs merge, a newline follows a doctype (unless text starting with one already does),
+(* adjacent text runs merge, a newline follows a doctype (the end of its SUFFIX, read back as text),
    whitespace-only runs normalise, text takes the class of the nearest enclosing container *)
 Fixpoint norm_node (enc : bool) (f : fmt) (cfg : bconfig) (pres : bool) (cont : N) (t : node) : list nnode :=
   match t with
@@ -55,8 +55,8 @@ Fixpoint norm_node (enc : bool) (f : fmt) (cfg : bconfig) (pres : bool) (cont : 
                  else match read_special c s with
                       | Some (c', s') =>
                           flush_text cfg pres' cont' pend ++ NS c' (collapse cfg pres' s') ::
-                          go (if (output_kind c =? 2) && negb (starts_nl r) then [nl_] else []) r
-                      | None => go pend r
+                          go (trailing c) r
+                      | None => go (pend ++ trailing c) r
                       end
              | (NTag _ _ as k) :: r => flush_text cfg pres' cont' pend ++ norm_node enc f cfg pres' cont' k ++ go [] r
              end) [] ks)]
@@ -70,8 +70,8 @@ Fixpoint norm_kids (enc : bool) (f : fmt) (cfg : bconfig) (pres : bool) (cont : 
       else match read_special c s with
            | Some (c', s') =>
                flush_text cfg pres cont pend ++ NS c' (collapse cfg pres s') ::
-               norm_kids enc f cfg pres cont (if (output_kind c =? 2) && negb (starts_nl r) then [nl_] else []) r
-           | None => norm_kids enc f cfg pres cont pend r
+               norm_kids enc f cfg pres cont (trailing c) r
+           | None => norm_kids enc f cfg pres cont (pend ++ trailing c) r
            end
   | (NTag _ _ as k) :: r => flush_text cfg pres cont pend ++ norm_node enc f cfg pres cont k ++ norm_kids enc f cfg pres cont [] r
   end.
@@ -125,7 +125,7 @@ Fixpoint representable (f : fmt) (rc : rcfg) (cfg : bconfig) (t : node) : bool :
   | NTag p ks =>
       let q := qname p in
       negb (g_hidden p) &&
-      str_eqb (ascii_lower q) q && negb (str_eqb q (c_root cfg)) &&
+      str_eqb (ascii_lower q) q &&
       forallb (fun kv => str_eqb (ascii_lower (fst kv)) (fst kv)) (g_attrs p) &&
       (if memS q (r_void rc) then match ks with [] => true | _ => false end else true) &&
       (* raw-text elements of the parser hold text only, written as it is; elsewhere text goes through the
@@ -149,6 +149,40 @@ Definition html_rcfg (check : bool) : rcfg :=
 Definition html_bcfg : bconfig :=
   mkcfg (Some default_empty_element_tags) default_preserve_whitespace_tags default_string_containers
         ascii_spaces root_tag_name.
+
+(* ---- where a second round trip changes nothing ---- *)
+(* A doctype's newline is written again on every rendering.  The text it merges into is stable only when it is
+   the bare newline outside whitespace-preserving elements (whitespace-only runs collapse back to it); any other
+   text after a doctype grows by one newline per round trip (known finding C05-doctype-newline-accumulates).
+   [stable_doctypes] says of a re-parsed list that every string written with a trailing newline is, outside
+   whitespace-preserving elements, followed by exactly the text "\n" of the context's class. *)
+Definition doctype_ok (pres : bool) (cont : N) (k : nnode) (r : list nnode) : bool :=
+  match k with
+  | NS c _ =>
+      match trailing c with
+      | [] => true
+      | _ => negb pres && match r with NS c2 [10] :: _ => c2 =? cont | _ => false end
+      end
+  | NT _ _ _ => true
+  end.
+Fixpoint stable_node (cfg : bconfig) (pres : bool) (cont : N) (n : nnode) : bool :=
+  match n with
+  | NS _ _ => true
+  | NT q _ kids =>
+      let pres' := pres || memS q (c_pw cfg) in
+      let cont' := match assocS q (c_containers cfg) with Some c => c | None => cont end in
+      (fix go (l : list nnode) : bool :=
+         match l with
+         | [] => true
+         | k :: r => doctype_ok pres' cont' k r && stable_node cfg pres' cont' k && go r
+         end) kids
+  end.
+Fixpoint stable_list (cfg : bconfig) (pres : bool) (cont : N) (l : list nnode) : bool :=
+  match l with
+  | [] => true
+  | k :: r => doctype_ok pres cont k r && stable_node cfg pres cont k && stable_list cfg pres cont r
+  end.
+Definition stable_doctypes (cfg : bconfig) (l : list nnode) : bool := stable_list cfg false 0 l.
 
 (* ---- the re-parsed tree as a tree to render again (for the second round trip) ---- *)
 Fixpoint inj (cfg : bconfig) (n : nnode) : node :=
